@@ -5,7 +5,7 @@ import keyword
 from ..common import Ctx, P_HOOKS, P_TYPES, P_PYUTILS, AnalysisError
 from ..metamodel import camel_to_snake
 from .. import special, microeval
-from . import _imgbase
+from . import _imgbase, _sitebase
 
 META = {
     "level": "other",
@@ -118,6 +118,12 @@ def run(ctx: Ctx):
         ctx.fail("factory-wiring", construct, msg, P_HOOKS, ln)
     if not probs:
         ctx.ok("factory-wiring")
+    # (e) "structuring that output and serialising again returns the same JSON": the constructor output of an
+    # alternative must be parsed back as that alternative without loss (union dispatch, shared with C01/C14)
+    sa = _sitebase.analysis(ctx)
+    _sitebase.floors(ctx, sa)
+    _sitebase.report(ctx, sa, {"unsupported": "reparse-supported", "unsound": "reparse-sound", "lossy": "reparse-lossless"},
+                     {"unsupported": "reparse-has-handler"})
     # (d) always-present
     exp = special.expected_special(im)
     omit = special.folded_omit(im)
